@@ -31,6 +31,30 @@ structure Cfg where
   dyn     : Bool          -- timeout source is `timeout_fn` (per request) rather than fixed
 deriving Repr, DecidableEq
 
+/-! ## the builder
+
+`TimeLimiterLayer::builder()` starts from a fixed timeout of 5 s, cancelling (config.rs
+`TimeLimiterConfigBuilder::new`).  `cancel_running_future` overwrites the flag in place;
+`timeout_duration` and `timeout_fn` change the builder's *type* and therefore rebuild it field
+by field, carrying the flag (and name, listeners) over (config.rs:186-240).  So every field is
+"last setter wins", whatever the order of the setters of the other fields. -/
+
+inductive Setter
+  | dur (ms : Nat)          -- `.timeout_duration(ms)`
+  | fn (dflt : Nat)         -- `.timeout_fn(f)`; `dflt`: what `f` returns for a request without its own timeout
+  | cancel (b : Bool)       -- `.cancel_running_future(b)`
+deriving Repr, DecidableEq
+
+def defaultCfg : Cfg := { timeout := 5000, cancel := true, dyn := false }
+
+def applySetter (cfg : Cfg) : Setter → Cfg
+  | .dur ms => { cfg with timeout := ms, dyn := false }
+  | .fn d => { cfg with timeout := d, dyn := true }
+  | .cancel b => { cfg with cancel := b }
+
+/-- the configuration `builder().s₁.s₂.….build()` ends up with -/
+def build (chain : List Setter) : Cfg := chain.foldl applySetter defaultCfg
+
 /-- the call future -/
 inductive Outer
   | fresh                 -- created by `call()`, never polled: nothing has happened yet
@@ -260,11 +284,29 @@ def parseOp (ws : List String) : Option Op :=
   | "adv" :: ms :: _ => some (.adv (ms.toNat?.getD 0))
   | _ => none
 
+/-- `d<ms>` / `f<ms>` / `c0` / `c1`; anything else is skipped (as the harness does) -/
+def parseSetter (w : String) : Option Setter :=
+  let arg := (w.drop 1).toString.toNat?
+  if w.startsWith "d" then arg.map .dur
+  else if w.startsWith "f" then arg.map .fn
+  else if w.startsWith "c" then
+    match arg with
+    | some 0 => some (.cancel false)
+    | some 1 => some (.cancel true)
+    | _ => none
+  else none
+
+/-- header word `chain=s1,s2,…`: the builder chain, left to right -/
+def parseChain (s : String) : List Setter := (s.splitOn ",").filterMap parseSetter
+
 def machine : Machine where
   σ := Cfg × State
   init kv :=
-    let cfg : Cfg := { timeout := kv.nat "timeout" 5000, cancel := kv.nat "cancel" 1 != 0,
-                       dyn := kv.nat "dyn" 0 != 0 }
+    let cfg : Cfg :=
+      match kv.get "chain" with
+      | some ch => build (parseChain ch)
+      | none => { timeout := kv.nat "timeout" 5000, cancel := kv.nat "cancel" 1 != 0,
+                  dyn := kv.nat "dyn" 0 != 0 }
     (cfg, init)
   step := fun (cfg, s) ws =>
     match parseOp ws with
